@@ -210,7 +210,11 @@ func genMeta(r *rand.Rand) []KV {
 	for i := 0; i < n; i++ {
 		name := fmt.Sprintf("m%d%s", i, []string{"", "-x", "key", "Upper"}[r.IntN(4)])
 		val := []string{"v", "value with spaces", "a=b&c", "12345", "x/y/z", "ünï"}[r.IntN(5)]
-		h = append(h, KV{K: "X-Amz-Meta-" + name, V: val + fmt.Sprint(r.IntN(100))})
+		v := val + fmt.Sprint(r.IntN(100))
+		if r.IntN(8) == 0 {
+			v = "" // an empty value is a value: the key must still read back
+		}
+		h = append(h, KV{K: "X-Amz-Meta-" + name, V: v})
 	}
 	return h
 }
